@@ -392,6 +392,24 @@ def faultGenuine (d : Doc) (f : Fault) : Bool :=
       f.text.head? != some '+'
   | _ => false
 
+/-- which loader branches a document exercises: section kinds (M mtu, T/t tcp request/response, H/h http,
+O unknown module), `c` classes, `u` ua_os, `y` sys, `r` a table continued in a later section -/
+def docShape (d : Doc) : String :=
+  let keys := d.sections.map tableKey
+  let has (k : String) := keys.contains k
+  let ms := allMiscs d
+  let sysIn : Section → Bool
+    | .tcp _ _ _ it => it.any fun | .sys _ _ => true | _ => false
+    | .http _ _ _ it => it.any fun | .sys _ _ => true | _ => false
+    | .mtu _ _ it => it.any fun | .sys _ _ => true | _ => false
+    | .other _ _ _ _ it => it.any fun | .sys _ _ => true | _ => false
+  (if has "M" then "M" else "") ++ (if has "T0" then "T" else "") ++ (if has "T1" then "t" else "") ++
+  (if has "H0" then "H" else "") ++ (if has "H1" then "h" else "") ++ (if has "-" then "O" else "") ++
+  (if ms.any (fun | .classes _ _ => true | _ => false) then "c" else "") ++
+  (if ms.any (fun | .uaOs _ _ => true | _ => false) then "u" else "") ++
+  (if d.sections.any sysIn then "y" else "") ++
+  (if (keys.filter (· != "-")).eraseDups.length < (keys.filter (· != "-")).length then "r" else "")
+
 /-- `C06.doc <doc> <fault> <text>` — `Database::from_str` on the rendering of a structured document,
 optionally with one faulty line inserted.  impl: the loaded database in value form | `err:<kind>`.
 Spec: a well-formed document loads to exactly `flatten d`; a document with a genuine fault is rejected. -/
@@ -415,7 +433,7 @@ def docLoad (impl : String) : P Verdict := do
     pure { modelEq := impl == model, specOk := if wf then some (impl == spec) else none,
            kf := (if kfUa then ["KF.C06.uaOsLossy"] else []) ++
              (if decide (Huginn.KF.C06.docEmptyHorder d) then ["KF.C06.httpEmptyHorder"] else []),
-           tag := (if wf then "doc/wf/" else "doc/nonwf/") ++ s!"s{min nsec 3}/" ++
+           tag := (if wf then "doc/wf/" else "doc/nonwf/") ++ s!"s{min nsec 3}{docShape d}/" ++
              (if model.startsWith "err:" then model else "ok"),
            model := model, spec := if wf then spec else "-" }
 
